@@ -28,6 +28,7 @@ type LoopSpec struct {
 	Unroll     int // >0: bounded unrolling (bounded, never counted as proved); -1: complete unroll requested
 	Lets       []*LetSpec
 	Modifies   []string // extra havoc targets (rare)
+	BodyEnsures []*Clause // relation between head(...) and the state after one iteration
 }
 
 type LetSpec struct {
@@ -591,6 +592,16 @@ func (cs *ContractSet) addClause(cur *Contract, kind string, loop int, text, fil
 			c.Label = fmt.Sprintf("i%d", len(ls.Invariants)+1)
 		}
 		ls.Invariants = append(ls.Invariants, c)
+	case "loop.step":
+		c, err := cs.mkClause(text, file, line)
+		if err != nil {
+			return err
+		}
+		ls := getLoop()
+		if c.Label == "" {
+			c.Label = fmt.Sprintf("s%d", len(ls.BodyEnsures)+1)
+		}
+		ls.BodyEnsures = append(ls.BodyEnsures, c)
 	case "loop.decreases":
 		c, err := cs.mkClause(text, file, line)
 		if err != nil {
